@@ -228,6 +228,15 @@ def run_records(ctx, focus, n_random, exhaustive_n=0, field=0):
         rec = gen.layout_record(rng, s, j, n=rng.randint(300, 900), gaps=rng.choice([0, 2, 5]))
         res = C.run_case(ctx, rec, s, j)
         judge(ctx, focus, res, C.replay_input(rec, s, j), "long")
+    # one record of about twenty thousand samples with events hundreds of steps long (twenty in the thorough tier)
+    for k in range(2 if n_random <= 400 else 20):
+        s, j = gen.pick_thresholds(rng)
+        rec = gen.huge_record(rng, s, j)
+        res = C.run_case(ctx, rec, s, j, want_model="by-stretch")
+        inp = {"record": {"generator": "gen.huge_record", "seed": ctx.seed, "index": k, "dt": rec.dt, "t0": rec.t0, "n": rec.n,
+                          "removed": sorted(rec.removed)[:3]}, "s": s, "j": j,
+               "note": "too long to inline: regenerate with the seed (the replay re-runs the stream)"}
+        judge(ctx, focus, res, inp, "huge")
     if exhaustive_n:
         t0 = 1500000000 // 1800 * 1800
         for n in range(1, exhaustive_n + 1):
@@ -253,6 +262,8 @@ def replay_record(ctx, focus, doc):
     if "field_window" in inp.get("record", {}):
         return None   # field windows are re-generated from the seed (check.py re-runs the stream)
     r = inp["record"]
+    if "generator" in r:
+        return None
     rec = gen.Record(r["dt"], r["t0"], r["rain"], r["level"], set(r["removed"]), r["pre"], r["post"])
     res = C.run_case(ctx, rec, inp["s"], inp["j"], tz=inp.get("timezone", "UTC"))
     if res["load"][0] != "ok":
